@@ -564,5 +564,8 @@ func c13Models(r *h.Result, rng *h.Rng, tier string) error {
 	if err := c13ModelTempo(r, rng.Fork(), n); err != nil {
 		return err
 	}
-	return c13JudgeTempo(r, rng.Fork(), n)
+	if err := c13JudgeTempo(r, rng.Fork(), n); err != nil {
+		return err
+	}
+	return c13ModelTempoLegacy(r, rng.Fork(), n)
 }
